@@ -23,11 +23,12 @@ FAMILIES = {
     "convert": "harness.check_convert",
     "reader": "harness.check_reader",
     "batch": "harness.check_batch",
+    "compose": "harness.check_compose",
 }
 # property -> families whose judges print verdicts for it
 PROPS = {
     # (the merge, links and reader judges also print C03/C04 verdicts; those families are run by their own properties)
-    "C03": ["tree", "clone", "links"], "C04": ["tree", "clone"], "C05": ["values"], "C06": ["tree", "values", "card", "merge", "links"],
+    "C03": ["tree", "clone", "links", "compose"], "C04": ["tree", "clone", "compose"], "C05": ["values"], "C06": ["tree", "values", "card", "merge", "links", "compose"],
     "C09": ["card"],
     "C14": ["paths"],
     "C11": ["clone", "values"],
@@ -42,7 +43,7 @@ PROPS = {
     "C15": ["convert"],
     "C16": ["reader"],
     "C17": ["batch"],
-    "C01": ["formats"], "C02": ["formats"],
+    "C01": ["formats", "compose"], "C02": ["formats", "compose"],
 }
 EXPLAIN = {}
 
